@@ -410,6 +410,12 @@ def run(prop, obs, tier, seed, records, violations, known_hits, inconclusive):
                     nat = spec.native(inst, shape, conc)
                     cid = ctx.add_native(nat[0], nat[1]) if nat else None
                     items.append((kind, inst, shape, conc, label, cid))
+                    if kind == "cex" and hasattr(spec, "replay_variants"):
+                        # the model may rely on behaviour a library only shows on larger inputs (e.g. an unstable sort is
+                        # stable below 20 elements): the spec offers scaled-up concrete inputs for the same defect
+                        for shape2, conc2 in spec.replay_variants(inst, shape, conc, label):
+                            nat2 = spec.native(inst, shape2, conc2)
+                            items.append(("cexvar", inst, shape2, conc2, label, ctx.add_native(nat2[0], nat2[1])))
                 work.append((ob, spec, rec, items))
             elif ob.engine == "smt":
                 ob.run(ctx, ob, rec)
@@ -438,6 +444,7 @@ def run(prop, obs, tier, seed, records, violations, known_hits, inconclusive):
         diff_ok = diff_bad = 0
         reproduced = []
         unreproduced = []
+        var_ok = set()
         try:
             for kind, inst, shape, conc, label, cid in items:
                 nat = ctx.native_results.get(cid) if cid else None
@@ -457,13 +464,30 @@ def run(prop, obs, tier, seed, records, violations, known_hits, inconclusive):
                         rec.setdefault("diff_mismatch", []).append({"inputs": show(conc), "mirsym": (k, str(show(v))[:200]), "native": nat})
                 else:
                     # counterexample: does the real function violate the post-condition on these inputs?
+                    if kind == "cexvar":
+                        # scaled-up variant of an earlier model: only counts when it reproduces; never makes a run inconclusive
+                        if nat is not None and nat[0] == "OUT":
+                            val = spec.parse_native(inst, shape, nat[1])
+                            failed = [l for l, c in spec.post(inst, shape, conc, val, None) if not (c.concrete and c.v)]
+                            if failed:
+                                reproduced.append((label, inst, shape, conc, f"real function returns {str(nat[1])[:300]} violating: {failed[:3]}"))
+                                unreproduced = [u for u in unreproduced if u[0] != label]
+                                var_ok.add(label)
+                        elif nat is not None and nat[0] == "PANIC":
+                            allowed = spec.panic_ok(inst, shape, conc, nat[1])
+                            if not (allowed.concrete and allowed.v):
+                                reproduced.append((label, inst, shape, conc, f"real function panics: {nat[1]}"))
+                                unreproduced = [u for u in unreproduced if u[0] != label]
+                                var_ok.add(label)
+                        continue
                     if nat is None and hasattr(spec, "api_check"):
                         # under-constrained slice: the model must reproduce through the public API
                         bad, what = spec.api_check(inst, shape, conc, label)
                         if bad:
                             reproduced.append((label, inst, shape, conc, what))
                         else:
-                            unreproduced.append((label, conc, what))
+                            if label not in var_ok:
+                                unreproduced.append((label, conc, what))
                         continue
                     if nat is None:
                         unreproduced.append((label, conc, "no native driver"))
@@ -483,7 +507,7 @@ def run(prop, obs, tier, seed, records, violations, known_hits, inconclusive):
                         what = "native driver does not know the kernel"
                     if bad:
                         reproduced.append((label, inst, shape, conc, what))
-                    else:
+                    elif label not in var_ok:
                         unreproduced.append((label, conc, what))
         except (interp.Unsupported, M.MirError) as e:
             rec["verdict"] = "inconclusive"
